@@ -308,7 +308,7 @@ def _chk_subtract(args, res, old):
         return "columns changed: %r" % (list(res.data.columns),)
 
 
-contract("skgenome/gary.py::GenomicArray.subtract", params=dict(a=ObjT("GenomicArray"), b=ObjT("GenomicArray")),
+contract("skgenome/gary.py::GenomicArray.subtract#rt", params=dict(a=ObjT("GenomicArray"), b=ObjT("GenomicArray")),
          bounded=True, gen=_gen_pair, call=lambda fn, a: a["a"].subtract(a["b"]), props=("C06", "C12", "C13"),
          checks=[("difference_of_base_sets", _chk_subtract)])
 
@@ -866,4 +866,24 @@ contract(
     canaries=[("subtrahend_not_merged", 'other = merge(other.loc[:, ["chromosome", "start", "end"]])', 'other = other.loc[:, ["chromosome", "start", "end"]]'),
               ("arguments_swapped", "_subtraction(table, other)", "_subtraction(other, table)"),
               ],
+)
+
+
+# the method users call: a.subtract(b)
+_SUBC = CONTRACTS["skgenome/subtract.py::subtract"]
+
+
+def _lift(text):
+    import re
+    return re.sub(r"\bresult\b", "result.data", re.sub(r"\bother\b", "other.data", re.sub(r"\btable\b", "self.data", text)))
+
+
+contract(
+    "skgenome/gary.py::GenomicArray.subtract",
+    params=dict(self=ObjT("GenomicArray", data=_KEEP, meta=DictT()), other=ObjT("GenomicArray", data=_IV3, meta=DictT())),
+    returns=ObjT("GenomicArray", data=TabT(index="any", chromosome=CHROM, start=Int, end=Int, gene=GENE), meta=DictT()),
+    requires=[_lift(r) for r in _SUBC.requires],
+    ensures=[(lab, _lift(t)) for lab, t in _SUBC.ensures],
+    props=("C06", "C12", "C13"), domain="skip",
+    canaries=[("receiver_and_argument_swapped", "subtract(self.data, other.data)", "subtract(other.data, self.data)")],
 )
